@@ -215,6 +215,46 @@ CHECKS = {
         technique="TLA+ grammar spec (HeaderGrammar) + trace validation of token streams produced by an independent strict reader",
         design_ref="3.2, 4 C07",
     ),
+    "C11": dict(
+        level="model_checking",
+        text="Crypto.tla is the configuration machine of a write session (password, chain ending in 7zAES, constructor flag, "
+             "set_encrypted_header, set_encoded_header_mode) with NamesProtected / ContentProtected and the invariant Consistent, "
+             "model-checked over every setter sequence. Configurations and setter sequences of the model's alphabet x chains ending in "
+             "7zAES (alone, behind Copy/compressors/BCJ/Delta) x Unicode passwords (empty, non-BMP) are executed; every archive carries "
+             "marker plaintext and marker names and is written twice. Facts derived from the bytes (marker search in the raw file, "
+             "keyless decode by the independent reader, IV and ciphertext freshness of the twins over the AES pack regions) and the "
+             "outcomes of open/getnames/extractall with the right, no and wrong passwords (different, prefix, case-changed) are "
+             "validated by TLC against TraceCrypto.",
+        note="Trusted: TLC, harness/refcodec's own 7zAES key derivation. Secrecy is judged by marker search and keyless decoding, not "
+             "cryptanalysis; a wrong password must never deliver the marker bytes (error or CRC failure both count as refusal).",
+        technique="TLA+ spec (Crypto) model-checked + configurations executed + trace validation of byte-level facts and password outcomes (TraceCrypto)",
+        design_ref="3.8, 4 C11",
+    ),
+    "C02": dict(
+        level="model_checking",
+        text="Tree.tla defines Walk(T, deref) (the member list writeall produces), Materialise and Expected; TLC checks RoundTrip and "
+             "ParentsFirst for EVERY tree of <= 4 (quick) / 5 (thorough) nodes with directories, files, empty files and links to files "
+             "and directories. Every tree TLC emits (sampled in quick) is created on disk with Unicode names, permission bits "
+             "0o400..0o777 and mtimes 1970..2100 with sub-second parts, archived by writeall (arcname None / given, dereference off / "
+             "on, with and without password) or pack_7zarchive/unpack_7zarchive and extracted into an empty directory; TLC (TraceTree) "
+             "requires the extracted tree to equal Expected(T, deref): entries, kinds, bytes, link targets, permission bits, "
+             "|mtime difference| <= 5 microseconds.",
+        note="Trusted: TLC; Linux, run as root (owner-unreadable files still readable). Timestamps travel as 16-bit limbs.",
+        technique="TLA+ spec (Tree) exhaustively model-checked + TLC-enumerated trees materialised, archived and extracted + trace validation (TraceTree)",
+        design_ref="3.9, 4 C02",
+    ),
+    "C19": dict(
+        level="model_checking",
+        text="Cli.tla models every subcommand as a composition of library session actions followed by Exit(code) with "
+             "Succeeds(cmd, condition, option) in the library's terms; TLC checks Truthful (exit = 0 <=> succeeded) over all "
+             "combinations and emits them. Every combination is run as `python -m py7zr ...` in a subprocess: c/a/l/x/t/i x archive "
+             "condition (intact, header damaged, data damaged, password needed and not given, unsupported method, absent, already "
+             "existing) x options (-v SIZE with/without unit and invalid, --verbose, output directory, archive name with/without "
+             ".7z); trees of C02 go through c + x. TraceCli/TraceTree validate exit status and that the effect equals the library's.",
+        note="Trusted: TLC; interactive password prompts are not driven (stdin closed, -P given or absent).",
+        technique="TLA+ spec (Cli) model-checked + TLC-enumerated command lines executed in subprocesses + trace validation (TraceCli, TraceTree)",
+        design_ref="3.10, 4 C19",
+    ),
 }
 
 NOT_YET = {}  # id -> reason; filled below for every property without a check
